@@ -2,7 +2,7 @@
 per-body MIR is identical across feature sets, debug/nodebug differ only inside debug regions."""
 import hashlib, json, re
 from facts import callee_name, strip_refs, is_debug_only_switch
-from guards import guards_at, describe, anchors, callers_of
+from guards import guards_at, describe, anchors, callers_of, anchor_callers
 
 PANIC_PREFIX = ("core::panicking::", "core::fmt::Arguments", "core::fmt::rt::")
 
@@ -52,6 +52,24 @@ def rule_debug_regions(ctx, rule="C20-debugpure"):
     ctx.need(rule, "crate", "bodies-with-debug-regions", n >= 5, "only %d bodies contain debug-only regions" % n, how="%d bodies with debug-only regions" % n)
 
 
+# hints whose precondition must be established by a real (non-debug) guard dominating the site:
+# (function, callee) -> predicate over the described guards at the site
+def _lt_len(gs, lhs_pat):
+    for g in gs:
+        if g[0] == "cmp2":
+            if g[1] == "Lt" and re.search(lhs_pat, g[2]) and g[3] == "repr::Repr::len(p1)":
+                return True
+            if g[1] == "Gt" and re.search(lhs_pat, g[3]) and g[2] == "repr::Repr::len(p1)":
+                return True
+    return False
+
+
+REQUIRED_GUARD = {
+    ("repr::Repr::remove", "core::option::Option::<T>::unwrap_unchecked"): (lambda gs: _lt_len(gs, r"^p2$"), "idx < self.len()"),
+    ("repr::Repr::retain", "core::option::Option::<T>::unwrap_unchecked"): (lambda gs: _lt_len(gs, r"."), "src_idx < len"),
+}
+
+
 def rule_unchecked_sites(ctx, rule="C20-unchecked"):
     F = ctx.F
     found = set()
@@ -63,14 +81,25 @@ def rule_unchecked_sites(ctx, rule="C20-unchecked"):
                 found.add((path, nme))
                 key = (path, nme)
                 audited = key in UNCHECKED_TABLE
-                if not audited and path not in anchors(F):
-                    # an extracted private helper: the site is audited if every caller of the helper had
-                    # the same hint audited (the code moved, its justification did not change)
-                    cs = callers_of(F, path)
-                    audited = bool(cs) and all((cb.path, nme) in UNCHECKED_TABLE for cb, _, _ in cs)
+                lifted = False
+                if not audited and (path not in anchors(F) or b.j["kind"] == "closure"):
+                    # code moved into a private helper / closure: the site is audited if every anchor
+                    # function it is reached from had the same hint audited (its justification moved with it)
+                    acs = anchor_callers(F, path)
+                    audited = bool(acs) and all((a, nme) in UNCHECKED_TABLE for a in acs)
+                    lifted = audited
                 ctx.ob(rule, path, "audited:" + nme.rsplit("::", 1)[-1], audited, how=UNCHECKED_TABLE.get(key, "moved into a helper called only from audited functions"), line=t.get("line", 0),
                        detail="new `%s` site in %s is not in the audited table: its precondition holds only by an argument nobody wrote down; in release builds a violated hint is undefined behaviour" % (nme, path))
-                if nme == "core::hint::unreachable_unchecked":
+                for a in ([path] if path in anchors(F) and b.j["kind"] != "closure" else sorted(anchor_callers(F, path))):
+                    req = REQUIRED_GUARD.get((a, nme))
+                    if req:
+                        from guards import inlined_sites
+                        ab = F.bodies[a]
+                        for st in inlined_sites(ab, lambda x: x == nme):
+                            ok = req[0](st.guards())
+                            ctx.ob(rule, a, "guarded:" + st.label(), ok, how="hint dominated by the real check `%s`" % req[1], line=st.line,
+                                   detail="`%s` in %s relies on `%s`, which no non-debug guard establishes at the site (a debug_assert! does not exist in release builds: there the hint is undefined behaviour for the inputs the check used to reject)" % (nme.rsplit("::", 1)[-1], a, req[1]))
+                if nme == "core::hint::unreachable_unchecked" and not lifted:
                     # sits on the Err edge of the expected fallible call, next to its debug twin
                     gs = guards_at(b, bb)
                     errs = [g for g in gs if g[0] == "cls" and g[2] == "Err"]
